@@ -14,12 +14,13 @@ def run(chk):
     T = chk.thorough()
     n_asan = 24000 if T else 2000
     n_dbg = 12000 if T else 1000
-    # a sanitizer crash ends one part of one history; the shard continues behind it
-    chk.absorb(vlib.run_sharded(asan, n_asan * PARTS, chk.seed, chk.tier, tag='c04a', max_restarts=1000000),
+    # a sanitizer crash ends one part of one history; the shard continues behind it. The wall-clock cap per
+    # shard process is generous: work is bounded by case counts, and a killed process loses its statistics.
+    chk.absorb(vlib.run_sharded(asan, n_asan * PARTS, chk.seed, chk.tier, tag='c04a', max_restarts=1000000, timeout=6 * 3600),
                'histories x capacity sweep x {no,yes,internal,CallbackBuffer} (asan, NDEBUG)')
     # other histories (case range behind the first one) with the library assertions on
     chk.absorb(vlib.run_sharded(dbg, n_dbg * PARTS, chk.seed, chk.tier, tag='c04b', first=n_asan * PARTS,
-                                max_restarts=1000000),
+                                max_restarts=1000000, timeout=6 * 3600),
                'histories x capacity sweep x {no,yes,internal,CallbackBuffer} (asan-dbg, assertions on)')
     chk.assumptions = [
         'reference = the same history in a 1 MiB non-growing zero-filled external buffer; every committed item of the reference is '
